@@ -1,3 +1,4 @@
+import re
 """C01.alg — decode o encode = identity for the scalar codecs of rbx_binary::core, decided exactly in the
 GF(2)-affine bit-vector domain (all 2^32 / 2^64 inputs at once), plus interleave index duality (polynomials)
 and the referent delta recurrence (Z-linear forms)."""
@@ -169,20 +170,62 @@ def run(c, prog):
         c.ok(R, "codec:u8")
     else:
         c.violation(R, "u8|shape", "write_u8/read_u8 are no longer `write_all(&[value])` / `buffer[0]`", wf.sp, instance="codec:u8")
-    # bool: value as u8  /  read_u8()? != 0
+    # bool: both functions evaluated on true and on false (how the byte is computed / tested is free: `as u8`,
+    # u8::from, if/else, `!= 0`, `== 1` …): write_bool(b) hands write_u8 the byte n_b, read_bool on n_b gives b, and
+    # n_true != n_false
+    from sa import sym, wire
     wf = prog.fn(WR + "write_bool")
     rf = prog.fn(RD + "read_bool")
-    wcall = only([n for n in core.walk_fn(wf) if n.get("k") == "MethodCall" and n["m"] == "write_u8"], "write_u8 call", wf)
-    warg = core.strip(wcall["args"][0])
-    tail = core.strip(rf.body["b"]["expr"])
-    rexp = core.strip(tail["args"][0]) if tail.get("k") == "Call" else {}
-    ok = (warg.get("k") == "Cast" and core.strip(warg["e"]).get("lid") == wf.params[1]["lid"] and warg["ty"] == "u8"
-          and rexp.get("k") == "Binary" and rexp["op"] == "!=" and core.lit_value(rexp["r"]) == 0
-          and core.as_try(rexp["l"]) is not None and core.callee_generic(core.as_try(rexp["l"])) == RD + "read_u8")
+
+    def fold(t):
+        if not isinstance(t, tuple) or not t:
+            return t
+        t = tuple(fold(x) if isinstance(x, tuple) else x for x in t)
+        if t[0] == "cast" and t[2][0] == "c" and isinstance(t[2][1], (bool, int)) and re.match(r"^[iu](8|16|32|64|128|size)$", t[1]):
+            return sym.C(int(t[2][1]))
+        if t[0] == "op" and t[2][0] == "c" and t[3][0] == "c":
+            a, b = t[2][1], t[3][1]
+            try:
+                return sym.C({"!=": a != b, "==": a == b, "<": a < b, ">": a > b, "<=": a <= b, ">=": a >= b, "&": a & b, "|": a | b, "^": a ^ b}[t[1]])
+            except (KeyError, TypeError):
+                return t
+        if t[0] == "un" and t[1] == "!" and t[2][0] == "c" and isinstance(t[2][1], bool):
+            return sym.C(not t[2][1])
+        return t
+    codes = {}
+    ok = True
+    why = ""
+    for b in (True, False):
+        got = []
+
+        def sink(I, n, path, a, env, got=got):
+            got.append(I.eval(a[-1], env))
+            return sym.var(sym.OK, sym.UNIT)
+        try:
+            env = {wf.params[0]["lid"]: ("in", "self"), wf.params[1]["lid"]: sym.C(b)}
+            wire.run_region(prog, wf.body, env, [(re.compile(r"RbxWriteExt::write_u8$"), sink)], depth=3)
+            nb = fold(got[0]) if len(got) == 1 else None
+            if nb is None or nb[0] != "c":
+                ok, why = False, f"write_bool({b}) does not hand write_u8 one constant byte ({got})"
+                break
+            codes[b] = nb[1]
+
+            def rd(I, nn, path, a, env, nb=nb):
+                return sym.var(sym.OK, nb)
+            _, back, _ = wire.run_region(prog, rf.body, {rf.params[0]["lid"]: ("in", "self")}, [(re.compile(r"RbxReadExt::read_u8$"), rd)], depth=3)
+            back = fold(back)
+            if back != sym.var(sym.OK, sym.C(b)):
+                ok, why = False, f"read_bool on the byte {nb[1]} written for {b} gives {sym.term_str(back, 4)}"
+                break
+        except sym.Unsupported as e:
+            ok, why = False, f"outside the symbolic model: {e}"
+            break
+    if ok and codes.get(True) == codes.get(False):
+        ok, why = False, f"true and false are both written as {codes.get(True)}"
     if ok:
         c.ok(R, "codec:bool")
     else:
-        c.violation(R, "bool|shape", "write_bool/read_bool are no longer `value as u8` / `read_u8()? != 0` (true<->1, false<->0)", wf.sp, instance="codec:bool")
+        c.violation(R, "bool|shape", f"write_bool / read_bool do not round-trip both truth values: {why}", wf.sp, instance="codec:bool")
 
     # --- interleave index maps
     def index_map(fn, store):
